@@ -190,4 +190,24 @@ def deriveAtomsAllFast (t : Node) (A : CAtoms) : CAtoms :=
       words := fun i => match findNode i t with | some (.text _ d) => counter.count d.toList | _ => 0 }
   { B with dataTable := fun i => match derivedDataTable t B i with | some b => b | none => A.dataTable i }
 
+/-- atoms for a stand-alone subtree: display and visibility from the style attributes, nothing else
+(`innerText` only asks about visibility) -/
+def blankAtoms : CAtoms where
+  styleDisplay := fun _ => ""
+  visHidden := fun _ => false
+  byline := fun _ => false
+  rxUnlikely := fun _ => false
+  rxMaybe := fun _ => false
+  embed := fun _ => .none
+  dataTable := fun _ => false
+  blank := fun _ => false
+  words := fun _ => 0
+
+def styleOnlyAtoms (t : Node) : CAtoms := deriveAtomsFast t blankAtoms
+
+/-- the ids of the elements of `t` (the table itself included) whose `hasValidText` is true -/
+def validTextIds (t : Node) : List Nat :=
+  let A := styleOnlyAtoms t
+  (t :: t.descElems).filterMap fun e => if derivedValidText A e then some e.id else none
+
 end Distill
